@@ -266,6 +266,12 @@ Theorem C19_tmp_rename_is_safe : forall refs parts tmp md,
 Proof. exact tmp_rename_is_safe. Qed.
 Print Assumptions C19_tmp_rename_is_safe.
 
+(* the general relation CONTAINS the relation today's code is checked to be inside (summary files written in place, in either
+   order): every trace accepted by check_safe_trace_sym is accepted by check_safe_gen - so all C19_gen_* theorems apply to it *)
+Theorem C19_sym_is_gen : forall refs tr, check_safe_trace_sym refs tr = true -> check_safe_gen refs tr = true.
+Proof. exact sym_is_gen. Qed.
+Print Assumptions C19_sym_is_gen.
+
 Definition ex_tmp : path := md_name ++ [46; 116; 109; 112]%N.        (* "_metadata.tmp" *)
 Example C19_nonvacuous_gen :
   (* today's trace, the either-order trace and the temporary-file trace are accepted; deleting or overwriting a referenced
